@@ -10,7 +10,8 @@ use std::io::{BufRead, BufReader};
 use std::process::{Command, Stdio};
 use wmodel::{validate214, FeatureSet};
 
-const V: [u8; 24] = [0x00, 0x01, 0x02, 0x03, 0x05, 0x0a, 0x0b, 0x0c, 0x10, 0x11, 0x20, 0x40, 0x41, 0x60, 0x6f, 0x70, 0x7b, 0x7c, 0x7f, 0x80, 0xfc, 0xfd, 0xfe, 0xff];
+// includes type bytes walrus does not support (0x63/0x64 typed references, 0x69 exnref, 0x6e anyref)
+const V: [u8; 28] = [0x00, 0x01, 0x02, 0x03, 0x05, 0x0a, 0x0b, 0x0c, 0x10, 0x11, 0x20, 0x40, 0x41, 0x60, 0x63, 0x64, 0x69, 0x6e, 0x6f, 0x70, 0x7b, 0x7c, 0x7f, 0x80, 0xfc, 0xfd, 0xfe, 0xff];
 
 pub struct Space_ {
     pub seeds: Vec<(String, Vec<u8>)>,
@@ -100,6 +101,20 @@ impl Space_ {
                 v.push((format!("custom-payload:{}:{}", secname, wmodel::hex(pl)), w));
             }
         }
+        // every value of every byte of small modules whose local declarations hold a zero-count
+        // group (a group that declares nothing must still be well-formed and of a supported type)
+        for pos in 0..3usize {
+            let base = wgen::families::build_locals_zero_group(pos, 0x7f);
+            for p in 8..base.len() {
+                for val in 0..=255u8 {
+                    if val != base[p] {
+                        let mut w = base.clone();
+                        w[p] = val;
+                        v.push((format!("subst256:zero-count-group pos={} @{}={:#04x}", pos, p, val), w));
+                    }
+                }
+            }
+        }
         let alpha = wgen::body::alphabet();
         let (seqs, _) = crate::props::bodies::enumerate_all(3, args.threads);
         for s in seqs {
@@ -156,6 +171,7 @@ impl Space_ {
             seeds.push((format!("{}:{}", m.family, m.coords), m.wasm));
         }
         seeds.push(("names:all".into(), wgen::families::build_names(0, 0x1ff)));
+        seeds.push(("locals:zero-count-group".into(), wgen::families::build_locals_zero_group(1, 0x7f)));
         // operator representatives: one census entry per operator class, every 6th operator
         let (entries, _) = wgen::opcensus::census(false, Some(1), args.threads);
         for e in entries.iter().step_by(if args.tier == Tier::Thorough { 4 } else { 12 }) {
